@@ -90,6 +90,11 @@ class Tr:
         self.legacy = False          # literal patterns as Coq literal patterns (the first translated checks' proofs destruct them) instead of tests
         self.side: list[str] = []    # tests that the literals of the pattern being translated stand for
         self.imported = {a.asname or a.name: (n.module or "") for n in tree.body if isinstance(n, ast.ImportFrom) for a in n.names}
+        self.strsets: dict[str, list[str]] = {}
+        for n in tree.body:
+            if isinstance(n, ast.Assign) and len(n.targets) == 1 and isinstance(n.targets[0], ast.Name) and isinstance(n.value, (ast.Set, ast.Tuple, ast.List)) \
+                    and n.value.elts and all(isinstance(x, ast.Constant) and isinstance(x.value, str) for x in n.value.elts):
+                self.strsets[n.targets[0].id] = [x.value for x in n.value.elts]
         for n in tree.body:
             if isinstance(n, ast.Assign) and len(n.targets) == 1 and isinstance(n.targets[0], ast.Name) and isinstance(n.value, ast.Dict):
                 if all(isinstance(k, ast.Constant) and isinstance(k.value, str) and isinstance(v, ast.Constant) and isinstance(v.value, str) and v.value
@@ -265,6 +270,8 @@ class Tr:
             return f"(if {c} then {a} else {b})", ta
         if isinstance(e, ast.Subscript) and isinstance(e.slice, ast.Constant) and isinstance(e.slice.value, int) and e.slice.value >= 0:
             t, ty = self.expr(e.value, env)
+            if ty == "ARGS":
+                return f"(nth_arg {e.slice.value} {t})", "E"
             if ty != "LE":
                 fail(e, "subscript of a non-list")
             return f"(nth {e.slice.value} {t} no_expr)", "E"
@@ -315,6 +322,16 @@ class Tr:
                 if ty != "E":
                     fail(e, f"{fn} of a non-expression")
                 return f"({fn} {t})", "B"
+            if fn == "is_same_type" and len(args) == 2 and not e.keywords and isinstance(args[0], ast.Call) and ast.unparse(args[0].func) == "get_mypy_type" \
+                    and len(args[0].args) == 1 and isinstance(args[1], ast.Starred) and isinstance(args[1].value, ast.Name) and args[1].value.id in self.strsets:
+                # is_same_type(get_mypy_type(e), *NAMES): the type is one of the listed full names
+                t, ty = self.expr(args[0].args[0], env)
+                if ty != "E":
+                    fail(e, "type of a non-expression")
+                names = sorted(self.strsets[args[1].value.id])
+                self.uses_types = True
+                self.type_names |= set(names)
+                return f"(existsb (type_is {t}) [{'; '.join(cstr(x) for x in names)}])", "B"
             if fn == "is_same_type" and len(args) >= 2 and not e.keywords and isinstance(args[0], ast.Call) and ast.unparse(args[0].func) == "get_mypy_type" \
                     and len(args[0].args) == 1 and all(isinstance(a, ast.Name) for a in args[1:]):
                 t, ty = self.expr(args[0].args[0], env)
@@ -389,6 +406,8 @@ class Tr:
         t, ty = self.expr(e, env)
         if ty == "B":
             return t
+        if ty in ("ARGS", "LE", "LS") and not self.legacy:
+            return f"(negb (is_nil {t}))"
         fail(e, f"truth value of type {ty}")
 
     # ------------------------------------------------------------------ statements
